@@ -406,6 +406,10 @@ def _explicit_inf_effective(ctx, b, explicit):
             if pt[0] == "f" and pt[1][0] == "arg" and pt[1][1] == 0 and pt[2].isdigit():
                 rt = b.rvalue_term(s_["rv"])
                 if U.has_call(rt, "PublicKey::is_inf") and rt[0] == "bin" and rt[1] in ("BitOr",):
+                    # the accumulation must happen for every key: on every path of the closure (cache hit and miss alike)
+                    rets = [x for x in b.return_blocks() if x in b.reach]
+                    if any(b.reachable_avoiding(0, [x], [bi]) for x in rets) and bi != 0:
+                        return False, "is_inf is accumulated only on some paths of the per-pair closure"
                     flag_idx = int(pt[2])
     if flag_idx is None:
         return False, ""
